@@ -5,7 +5,13 @@ CONSTANTS
   MaxPost = 1
   Reserve = TRUE
   Titles <- TitleClasses
+  Stack = 64
+  WorkList = FALSE
+  DestSpellings = {"none"}
+  FollowRefs = FALSE
+  IdLimits = {1000000}
+  CheckedIds = FALSE
   Emit = TRUE
-INVARIANTS RefinesForest RefinesAdjust RefinesFresh RefinesLinks RefinesCarries RefinesToc Verdict EmitInv
+INVARIANTS RefinesForest RefinesAdjust RefinesFresh RefinesLinks RefinesCarries RefinesToc Verdict NoAbort RefusedOk EmitInv
 PROPERTIES Reserved
 CHECK_DEADLOCK FALSE
